@@ -15,6 +15,7 @@ func (e *Engine) newProof(fn *ssa.Function) *Proof {
 	p := &Proof{eng: e, fn: fn, fname: e.funcDisplayName(fn), notes: map[string]bool{}, unmodelled: map[string]bool{}, inlined: map[string]bool{},
 		assumedLib: map[string]bool{}, initHeap: map[string]*Term{}, params: map[string]Value{}, specApps: map[string]bool{},
 		strSeen: map[int]bool{}, specSeen: map[int]bool{}}
+	p.privateBytes = e.privateNext
 	return p
 }
 
@@ -119,7 +120,7 @@ func (fr *Frame) evalContract(x ast.Expr, st *State, src string) (Value, types.T
 }
 
 // atCall applies `at call` clauses of the enclosing contract at a call site.
-func (fr *Frame) atCall(in ssa.Instruction, cc *ssa.CallCommon, st *State) {
+func (fr *Frame) atCall(in ssa.Instruction, cc *ssa.CallCommon, st *State, after bool, result Value, rt types.Type) {
 	if fr.con == nil || len(fr.con.AtCalls) == 0 {
 		return
 	}
@@ -127,11 +128,25 @@ func (fr *Frame) atCall(in ssa.Instruction, cc *ssa.CallCommon, st *State) {
 	ord := fr.callOrd(in)
 	j := 0
 	for _, ac := range fr.con.AtCalls {
-		if ac.Callee != name || ac.Ord != ord {
+		if ac.Callee != name || ac.Ord != ord || ac.After != after {
 			continue
 		}
-		fr.usedAt[ac] = true
+		if fr.usedAt != nil {
+			fr.usedAt[ac] = true
+		}
 		env := fr.env(st, true)
+		if after && fr.preCall != nil {
+			env.old = fr.preCall
+		}
+		if after && result != nil {
+			if tv, ok := result.(TupleV); ok {
+				for i, v := range tv {
+					env.vars[fmt.Sprintf("result%d", i)] = cvar{v, rt.(*types.Tuple).At(i).Type()}
+				}
+			} else {
+				env.vars["result"] = cvar{result, rt}
+			}
+		}
 		// arguments of the call are visible as arg0, arg1, ...
 		for i, a := range cc.Args {
 			env.vars[fmt.Sprintf("arg%d", i)] = cvar{fr.val(a), a.Type()}
@@ -225,6 +240,10 @@ func (e *Engine) ProveFunction(fn *ssa.Function) (res *ProofResult) {
 			p.assume(True(), g)
 		}
 	}
+	if c != nil {
+		p.con = c
+		p.computeAllowed(fr, c)
+	}
 	// vacuity: assumptions so far must be satisfiable
 	vo := &Obligation{Name: p.fname + "/vacuity#1", Kind: "vacuity", Guard: True(), Goal: False(), NAssume: len(p.assumptions), Desc: "preconditions are satisfiable", Fn: p.fname, IsCover: true}
 	vo.Pos = pos
@@ -242,7 +261,21 @@ func (e *Engine) ProveFunction(fn *ssa.Function) (res *ProofResult) {
 		env.bindResults(fn, rv)
 		for k, cl := range c.Ensures {
 			g := env.evalBool(cl.Expr, cl.Src)
-			p.oblige(fmt.Sprintf("%s/ensures#%d", p.fname, k+1), "ensures", fn.Pos(), out.Guard, g, "postcondition: "+cl.Src)
+			o := p.oblige(fmt.Sprintf("%s/ensures#%d", p.fname, k+1), "ensures", fn.Pos(), out.Guard, g, "postcondition: "+cl.Src)
+			if len(fr.rets) > 1 {
+				for j, rp := range fr.rets {
+					e2 := fr.env(rp.st, false)
+					var rv2 Value
+					if len(rp.vals) == 1 {
+						rv2 = rp.vals[0]
+					} else if len(rp.vals) > 1 {
+						rv2 = TupleV(rp.vals)
+					}
+					e2.bindResults(fn, rv2)
+					g2 := e2.evalBool(cl.Expr, cl.Src)
+					o.Parts = append(o.Parts, &Obligation{Name: fmt.Sprintf("%s@ret%d", o.Name, j+1), Kind: "ensures", Guard: rp.st.Guard, Goal: g2, NAssume: o.NAssume, Fn: p.fname, Pos: o.Pos})
+				}
+			}
 		}
 		p.frameCheck(fr, c, out)
 	}
@@ -304,29 +337,90 @@ func valueTerms(v Value) []*Term {
 	return nil
 }
 
-// frameCheck: heap cells not covered by the modifies clause are unchanged for pre-existing objects.
-func (p *Proof) frameCheck(fr *Frame, c *Contract, out *State) {
-	if p.heapHavocked {
-		// a callee with `modifies heap` was called: nothing can be said
-		for _, m := range c.Modifies {
-			if id, ok := m.Expr.(*ast.Ident); ok && (id.Name == "heap" || id.Name == "everything") {
-				return
-			}
-		}
-	}
-	// compute allowed writes by havocking the modifies set in a copy of the entry state
+// frame clauses: for a heap key, "pre-existing objects outside the modifies clause keep their entry values".
+type frameClause struct {
+	key  string
+	ord  int
+	goal func(st *State) *Term
+}
+
+func (p *Proof) computeAllowed(fr *Frame, c *Contract) {
 	allowed := fr.entrySt.clone()
 	env := fr.env(fr.entrySt, false)
 	env.old = nil
-	all := false
 	for _, m := range c.Modifies {
 		if id, ok := m.Expr.(*ast.Ident); ok && (id.Name == "heap" || id.Name == "everything") {
-			all = true
-			break
+			p.allowAll = true
+			return
 		}
 		env.havocLvalue(m, allowed)
 	}
-	if all {
+	p.allowedHeap = allowed
+}
+
+func (p *Proof) frameGoal(k string, fin *Term) *Term {
+	init, ok := p.initHeap[k]
+	if !ok || fin == init {
+		return True()
+	}
+	alw, ok := p.allowedHeap.Heap[k]
+	if !ok {
+		alw = init
+	}
+	if strings.HasPrefix(k, "G:") {
+		if alw != init {
+			return True()
+		}
+		return Eq(fin, init)
+	}
+	r := B.BoundVar("r", SRef)
+	unchanged := Eq(Select(fin, r), Select(init, r))
+	allowedHere := False()
+	if alw != init {
+		allowedHere = permittedRefs(alw, init, r)
+	}
+	if allowedHere == tTrue {
+		return True()
+	}
+	return Forall([]*Term{r}, Implies(BVUlt(r, p.heapTop0), Or(allowedHere, unchanged)))
+}
+
+func (p *Proof) frameClauses(st *State, eff *effects) []frameClause {
+	if p.allowAll || p.allowedHeap == nil {
+		return nil
+	}
+	var ks []string
+	for k := range eff.heap {
+		ks = append(ks, k)
+	}
+	if eff.allHeap {
+		for k := range p.initHeap {
+			if !eff.heap[k] {
+				ks = append(ks, k)
+			}
+		}
+	}
+	sort.Strings(ks)
+	var out []frameClause
+	for i, k := range ks {
+		k := k
+		if _, ok := p.initHeap[k]; !ok {
+			continue
+		}
+		out = append(out, frameClause{key: k, ord: i + 1, goal: func(s *State) *Term {
+			fin, ok := s.Heap[k]
+			if !ok {
+				return True()
+			}
+			return p.frameGoal(k, fin)
+		}})
+	}
+	return out
+}
+
+// frameCheck: heap cells not covered by the modifies clause are unchanged for pre-existing objects.
+func (p *Proof) frameCheck(fr *Frame, c *Contract, out *State) {
+	if p.allowAll || p.allowedHeap == nil {
 		return
 	}
 	var ks []string
@@ -334,40 +428,12 @@ func (p *Proof) frameCheck(fr *Frame, c *Contract, out *State) {
 		ks = append(ks, k)
 	}
 	sort.Strings(ks)
-	n := 0
 	for _, k := range ks {
-		fin := out.Heap[k]
-		init, ok := p.initHeap[k]
-		if !ok || fin == init {
+		g := p.frameGoal(k, out.Heap[k])
+		if g == tTrue {
 			continue
 		}
-		alw, ok := allowed.Heap[k]
-		if !ok {
-			alw = init
-		}
-		n++
-		name := fmt.Sprintf("%s/frame#%s", p.fname, sanitize(k))
-		if strings.HasPrefix(k, "G:") {
-			if alw != init {
-				continue // whole variable may change
-			}
-			p.oblige(name, "frame", fr.fn.Pos(), out.Guard, Eq(fin, init), "package variable "+k+" is not modified (not in modifies clause)")
-			continue
-		}
-		// arrays indexed by Ref: for every pre-existing object r, either r's entry is allowed to change or it is unchanged.
-		r := B.BoundVar("r", SRef)
-		unchanged := Eq(Select(fin, r), Select(init, r))
-		var allowedHere *Term
-		if alw == init {
-			allowedHere = False()
-		} else {
-			// allowed differs from init exactly at permitted refs (havoc stores fresh values there)
-			allowedHere = Neq(Select(alw, r), Select(init, r))
-			// fresh values could coincide with old ones; make permission structural instead:
-			allowedHere = permittedRefs(alw, init, r)
-		}
-		goal := Forall([]*Term{r}, Implies(BVUlt(r, p.heapTop0), Or(allowedHere, unchanged)))
-		p.oblige(name, "frame", fr.fn.Pos(), out.Guard, goal, "only locations in the modifies clause change in "+k)
+		p.oblige(fmt.Sprintf("%s/frame#%s", p.fname, sanitize(k)), "frame", fr.fn.Pos(), out.Guard, g, "only locations in the modifies clause change in "+k)
 	}
 }
 
